@@ -19,6 +19,8 @@ import TensoraVerif.Lemmas.DimDeadGenerate
 import TensoraVerif.Lemmas.Pipe1Class
 import TensoraVerif.Lemmas.Sparse1Generate
 import TensoraVerif.Lemmas.Dense2Generate
+import TensoraVerif.Lemmas.SpmvGenerate
+import TensoraVerif.Lemmas.SpmulGenerate
 open TV
 
 namespace Drv
@@ -388,8 +390,17 @@ def handle (cmd : String) (args : List Sexp) : Sexp :=
         match g with
         | .iter i (some ⟨o, 0⟩) (.terminal e) =>
           let one := match ToIr.leaves e with | [bT] => Sparse1.isExpr i bT e && fnames == [o.name, bT.name] | _ => false
-          if plain && Sparse1.isSp i o && Sparse1.sparseFormats fs && one then .atom "sparse1" else .atom "none"
+          let mul2 := match e with
+            | .mul (.tensor bT) (.tensor cT) => Spmul.isClass i o bT cT && bT.name != cT.name
+            | _ => false
+          if plain && Sparse1.isSp i o && Sparse1.sparseFormats fs && one then .atom "sparse1"
+          else if plain && Sparse1.sparseFormats fs && mul2 then .atom "spmul" else .atom "none"
         | .iter i (some ⟨o, 0⟩) (.iter j none (.terminal e)) =>
+          let csr := match e with
+            | .mul (.tensor tB) (.tensor tC) =>
+              Dense2.isI i o && Spmv.isCsr i j tB && Dense2.isJ j tC && fs == Spmv.spFormats o.name tB.name tC.name
+            | _ => false
+          if plain && i != j && csr then .atom "spmv" else
           if plain && i != j && Dense1.isLeaf i o && Dense2.isExpr i j e && Dense2.idsOK i j e && Dense2.denseFormats fs
             && (ToIr.leaves e).all (fun t => t.name != o.name) then .atom "dense2" else .atom "none"
         | _ => .atom "none"
